@@ -13,6 +13,13 @@ POOLS = [
     {1: '', 2: 'x=y', 3: 'x'},
     {1: 'en', 2: 'en-US', 3: 'EN'},
     {1: 'a b', 2: 'a', 3: 'a=b'},
+    # values that differ only in how a byte is spelled: raw, percent-encoded, percent-encoded twice / other hex case
+    {1: 'en US', 2: 'en%20US', 3: 'en%2520US'},
+    {1: '"q"', 2: '%22q%22', 3: '%2522q%2522'},
+    {1: '{x}', 2: '%7Bx%7D', 3: '%7bx%7d'},
+    {1: 'a^b', 2: 'a%5Eb', 3: 'a%5eb'},
+    {1: 'caf\xe9', 2: 'caf%E9', 3: 'caf%e9'},
+    {1: 'a\tb', 2: 'a%09b', 3: 'a b'},
 ]
 
 
@@ -95,5 +102,5 @@ def run(ctx):
     for s, ev in out[:2]:
         ctx.sample({'par': s['par'], 'pool': s['pool'], 'events': cachesim.strip_for_tlc(ev)})
     ctx.cov['rule'] = ('classes = VaryScen.tla tuples (Vary nominates h1/h2/both/none/*; abstract values of both headers in request A and B); '
-                       'realised as A, B, A, B with value pools containing quotes, commas, %22, empty values and case variants and random Vary '
+                       'realised as A, B, A, B with value pools containing quotes, commas, %22, empty values, case variants and raw / percent-encoded / doubly encoded spellings of the same byte and random Vary '
                        'spellings; histories validated by TLC against VaryCache.tla. Non-trivial = distinct (class, value pool).')
